@@ -136,9 +136,15 @@ func H08_dict() {
 	}
 	vAssert(dict.Cardinality() == total, "cardinality")
 	autos := vAutomata()
+	if vParam("lite", 0) == 1 {
+		autos = []vAutoSpec{autos[0], autos[2], autos[4]}
+	}
 	au := autos[vChoice("auto", len(autos))]
 	// range bounds: absent, below all (""), equal to a term, between terms, above all
 	bounds := []string{"\x00none", "", "a", "aa", "b", "zz"}
+	if vParam("lite", 0) == 1 {
+		bounds = []string{"\x00none", "", "a", "aa"}
+	}
 	si := vChoice("start", len(bounds))
 	ei := vChoice("end", len(bounds))
 	// an empty exclusive end key is indistinguishable from an absent one for the FST library: not a well-formed range
